@@ -177,3 +177,54 @@ impl Check for C06 {
         v
     }
 }
+
+// ---------------------------------------------------------------------------------------------
+pub struct C19;
+
+impl Check for C19 {
+    fn id(&self) -> &'static str {
+        "C19"
+    }
+    fn rule(&self) -> String {
+        let base = e1::checks::C19.rule();
+        format!("{} Every 10th run is instead a chain of 1..3 optimisation stages on a real hard or LJ crystal (e2-crystal): the values behind generate_basis() are tracked and every move is compared with max_step_size times half of the declared range of the parameter it belongs to (cell length [0.01, start], ratio [0.1, start], oblique angle [pi/6, pi/2], x, y [-1/2, 1/2], orientation [0, 2pi]).", base)
+    }
+    fn runs(&self, tier: Tier) -> u64 {
+        e1::checks::C19.runs(tier)
+    }
+    fn generate(&self, rng: &mut Rng, tier: Tier, i: u64) -> J {
+        if i % 10 == 9 {
+            e2::real56::gen(rng, tier, "C19")
+        } else {
+            e1::checks::C19.generate(rng, tier, i)
+        }
+    }
+    fn execute(&self, j: &J) -> Result<RunOut, String> {
+        match engine_of(j) {
+            "e2-crystal" => e2::real56::execute(j),
+            _ => e1::checks::C19.execute(j),
+        }
+    }
+    fn shrink(&self, j: &J) -> Vec<J> {
+        match engine_of(j) {
+            "e2-crystal" => e2::real56::shrink(j),
+            _ => e1::checks::C19.shrink(j),
+        }
+    }
+    fn components_real(&self) -> Vec<&'static str> {
+        let mut v = e1::checks::REAL.to_vec();
+        v.extend_from_slice(e2::REAL);
+        v
+    }
+    fn components_stub(&self) -> Vec<&'static str> {
+        e1::checks::STUB.to_vec()
+    }
+    fn assumptions(&self) -> Vec<String> {
+        e1::checks::C19.assumptions()
+    }
+    fn expected_probes(&self) -> Vec<&'static str> {
+        let mut v = e1::checks::C19.expected_probes();
+        v.push("probe.real_stage_histories");
+        v
+    }
+}
